@@ -138,7 +138,12 @@ def run_one(job):
     t0 = time.time()
     timeout = job.get("timeout", 20.0)
     try:
-        p = subprocess.run([job.get("bin", BIN_VERIF), name], cwd=d, env=env, stdin=subprocess.DEVNULL,
+        arg = name
+        if job.get("argpath") == "abs":
+            arg = path
+        elif job.get("argpath"):
+            arg = job["argpath"]
+        p = subprocess.run([job.get("bin", BIN_VERIF), arg], cwd=d, env=env, stdin=subprocess.DEVNULL,
                            stdout=subprocess.PIPE, stderr=subprocess.PIPE, timeout=timeout,
                            preexec_fn=_limits)
         code, out, err, to = p.returncode, p.stdout, p.stderr, False
@@ -151,7 +156,10 @@ def run_one(job):
                 trace = f.read().decode("utf-8", "replace")
         except FileNotFoundError:
             trace = ""
-    return Obs(code, out, err, trace, to, time.time() - t0)
+    o = Obs(code, out, err, trace, to, time.time() - t0)
+    if job.get("argpath"):
+        o.trace = arg          # (the path as given, for checks that vary the spelling)
+    return o
 
 
 def _cleanup_worker():
